@@ -38,6 +38,16 @@ macro_rules! from_small { ($name:ident, $t:ty) => {
         let _ = p;
     }
 }; }
+macro_rules! from_big_valid { ($name:ident, $t:ty) => {
+    /// From<64/128-bit int>: the result is a valid TwoFloat with hi == RN(n) (all values of the type)
+    pub fn $name() {
+        let n = any_int!($t);
+        let r = TwoFloat::from(n);
+        vassert!(valid(r.hi, r.lo), "From<int>: result is a valid TwoFloat");
+        vassert!(r.hi == n as f64, "From<int>: high word is n rounded to f64");
+        vcover!(r.lo != 0.0, "non-zero low word reachable");
+    }
+}; }
 macro_rules! from_big { ($name:ident, $t:ty, $wide:expr) => {
     /// From<64/128-bit int>: valid; exact up to 106 significant bits, else within 2^-106 |n|
     pub fn $name() {
@@ -106,6 +116,10 @@ from_small!(from_i32_body, i32);
 from_small!(from_u8_body, u8);
 from_small!(from_u16_body, u16);
 from_small!(from_u32_body, u32);
+from_big_valid!(from_i64_valid_body, i64);
+from_big_valid!(from_u64_valid_body, u64);
+from_big_valid!(from_i128_valid_body, i128);
+from_big_valid!(from_u128_valid_body, u128);
 from_big!(from_i64_body, i64, false);
 from_big!(from_u64_body, u64, false);
 from_big!(from_i128_body, i128, true);
@@ -128,6 +142,10 @@ harnesses! {
     #[kani::solver(kissat)] #[kani::unwind(40)] fn from_u8() { from_u8_body() }
     #[kani::solver(kissat)] #[kani::unwind(40)] fn from_u16() { from_u16_body() }
     #[kani::solver(kissat)] #[kani::unwind(40)] fn from_u32() { from_u32_body() }
+    #[kani::solver(kissat)] #[kani::unwind(6)] fn from_i64_valid() { from_i64_valid_body() }
+    #[kani::solver(kissat)] #[kani::unwind(6)] fn from_u64_valid() { from_u64_valid_body() }
+    #[kani::solver(kissat)] #[kani::unwind(6)] fn from_i128_valid() { from_i128_valid_body() }
+    #[kani::solver(kissat)] #[kani::unwind(6)] fn from_u128_valid() { from_u128_valid_body() }
     #[kani::solver(kissat)] #[kani::unwind(40)] fn from_i64() { from_i64_body() }
     #[kani::solver(kissat)] #[kani::unwind(40)] fn from_u64() { from_u64_body() }
     #[kani::solver(kissat)] #[kani::unwind(40)] fn from_i128() { from_i128_body() }
